@@ -179,7 +179,7 @@ func mutexWaiters() map[int64]bool {
 }
 
 // settle waits until no process is running (each is parked at a gate, finished, or
-// blocked on the recorder's mutex). It reports a hang after 20 s without that.
+// blocked on the recorder's mutex). It reports a hang after 60 s without that.
 func (c *ctl) settle() bool {
 	start := time.Now()
 	for n := 0; ; n++ {
@@ -211,7 +211,7 @@ func (c *ctl) settle() bool {
 			}
 			c.mu.Unlock()
 		}
-		if time.Since(start) > 20*time.Second {
+		if time.Since(start) > 60*time.Second {
 			return false
 		}
 	}
@@ -313,7 +313,7 @@ func (c *ctl) abort() {
 		}
 	}
 	c.mu.Unlock()
-	for i := 0; i < 2000 && !c.allFinished(); i++ {
-		time.Sleep(time.Millisecond)
+	for t0 := time.Now(); time.Since(t0) < 30*time.Second && !c.allFinished(); {
+		time.Sleep(200 * time.Microsecond)
 	}
 }
